@@ -218,3 +218,56 @@ Proof.
   - eapply Qeq_trans; [exact (I1 A1 A2 D1 D2 A1 A2 T0 T1 HDD)|]. field. exact HDD.
   - eapply Qeq_trans; [exact (I1 A1 A2 D1 D2 (A1 + D1)%Q (A2 + D2)%Q T0 T1 HDD)|]. field. exact HDD.
 Qed.
+
+(* ------------------------------------------------------------------------------------------ *)
+(* tightness: each of the three extremes of a candidate is attained by a ring vertex, i.e. every
+   side of the candidate rectangle touches the ring: no smaller rectangle with these directions
+   contains the vertices *)
+Lemma fold_max_attained (f : pt -> Z) l a : In a l -> f a = 0 ->
+  exists v, In v l /\ f v = fold_right Z.max 0 (map f l).
+Proof.
+  intros Ha Hfa. induction l as [|x l IH]; [destruct Ha|].
+  simpl. destruct (Z.max_spec (f x) (fold_right Z.max 0 (map f l))) as [[Hlt E]|[Hle E]]; rewrite E.
+  - destruct Ha as [->|Ha].
+    + (* a = x and the tail maximum is larger: it is attained in the tail or is 0 = f a *)
+      clear IH. assert (G : forall l', 0 <= fold_right Z.max 0 (map f l') /\
+                                (fold_right Z.max 0 (map f l') = 0 \/ exists v, In v l' /\ f v = fold_right Z.max 0 (map f l'))).
+      { induction l' as [|y l' IH']; simpl; [split; [lia|left; reflexivity]|].
+        destruct IH' as [H0 IH']. split; [lia|].
+        destruct (Z.max_spec (f y) (fold_right Z.max 0 (map f l'))) as [[H1 E1]|[H1 E1]]; rewrite E1.
+        - destruct IH' as [Hz|[v [Hv Ev]]]; [left; exact Hz|right; exists v; split; [right; exact Hv|exact Ev]].
+        - right. exists y. split; [left; reflexivity|reflexivity]. }
+      destruct (G l) as [_ [Hz|[v [Hv Ev]]]]; [lia|exists v; split; [right; exact Hv|exact Ev]].
+    + destruct (IH Ha) as [v [Hv Ev]]. exists v. split; [right; exact Hv|exact Ev].
+  - exists x. split; [left; reflexivity|reflexivity].
+Qed.
+Lemma fold_min_attained (f : pt -> Z) l a : In a l -> f a = 0 ->
+  exists v, In v l /\ f v = fold_right Z.min 0 (map f l).
+Proof.
+  intros Ha Hfa.
+  destruct (fold_max_attained (fun v => - f v) l a Ha) as [v [Hv Ev]]; [lia|].
+  exists v. split; [exact Hv|].
+  assert (G : forall l', fold_right Z.max 0 (map (fun v => - f v) l') = - fold_right Z.min 0 (map f l')).
+  { induction l' as [|y l' IH']; simpl; [reflexivity|]. rewrite IH'. lia. }
+  rewrite G in Ev. lia.
+Qed.
+
+Lemma ring_edges_fst_In a b l : In (a, b) (ring_edges l) -> In a l.
+Proof.
+  induction l as [|x l IH]; [simpl; tauto|]. destruct l as [|y t]; [simpl; tauto|].
+  rewrite ring_edges_cons2. intros [E|H]; [inversion E; left; reflexivity|right; apply IH; exact H].
+Qed.
+
+Theorem cand_rect_tight_lemma : forall ring a b, In (a, b) (ring_edges ring) ->
+  let c := candidate ring (a, b) in
+  exists v1 v2 v3, In v1 ring /\ In v2 ring /\ In v3 ring /\
+    dot (sub v1 a) (c_d c) = c_tmin c /\ dot (sub v2 a) (c_d c) = c_tmax c /\
+    dot (sub v3 a) (rot90 (c_d c)) = c_hmax c.
+Proof.
+  intros ring a b He c. pose proof (ring_edges_fst_In _ _ _ He) as Ia.
+  assert (Z0 : forall d, dot (sub a a) d = 0) by (intros d; unfold dot, sub; cbn [fst snd]; ring).
+  destruct (fold_min_attained (fun v => dot (sub v a) (sub b a)) ring a Ia (Z0 _)) as [v1 [H1 E1]].
+  destruct (fold_max_attained (fun v => dot (sub v a) (sub b a)) ring a Ia (Z0 _)) as [v2 [H2 E2]].
+  destruct (fold_max_attained (fun v => dot (sub v a) (rot90 (sub b a))) ring a Ia (Z0 _)) as [v3 [H3 E3]].
+  exists v1, v2, v3. repeat split; assumption.
+Qed.
